@@ -26,6 +26,14 @@ type ShieldCfg struct {
 	MinPurchase                                     int64
 	FeesRate, PoolLimit, StakingRate, DepositRate   sdk.Dec
 	MinClaimDeposit                                 int64
+	// the claim deposit parameter also names a second denomination (admission looks at the bond denomination only)
+	MinClaimDepositSecondDenom bool
+}
+
+// withSecondDenom: one history in six runs with a claim deposit parameter that names a second denomination (own random stream)
+func withSecondDenom(sc ShieldCfg, seed int64) ShieldCfg {
+	sc.MinClaimDepositSecondDenom = newRng(seed*151+5).Intn(6) == 0
+	return sc
 }
 
 func shieldPatch(sc ShieldCfg, depositPeriod time.Duration, t0 time.Time) func(enc appparams.EncodingConfig, gs app.GenesisState) {
@@ -40,6 +48,9 @@ func shieldPatch(sc ShieldCfg, depositPeriod time.Duration, t0 time.Time) func(e
 		sg.ClaimProposalParams.PayoutPeriod = sc.Payout
 		sg.ClaimProposalParams.ClaimPeriod = sc.Protection
 		sg.ClaimProposalParams.MinDeposit = sdk.NewCoins(sdk.NewInt64Coin(Bond, sc.MinClaimDeposit))
+		if sc.MinClaimDepositSecondDenom {
+			sg.ClaimProposalParams.MinDeposit = sg.ClaimProposalParams.MinDeposit.Add(sdk.NewInt64Coin("zzz", 1))
+		}
 		sg.ClaimProposalParams.DepositRate = sc.DepositRate
 		sg.ShieldStakingRate = sc.StakingRate
 		// DefaultGenesisState stamps the wall clock; a genesis file carries the chain's own start time
@@ -92,7 +103,7 @@ func ShieldProfile(seed int64, out *Recorder, nOps int) *Chain {
 	stakes := [][]int64{{1000000000, 1000000000, 1000000000}, {3000000000, 1000000000, 500000000}}[rng.Intn(2)]
 	t0 := time.Unix(1600000000, 0).UTC()
 	cfg := GenCfg{Seed: seed, H0: 10, T0: t0, NAcc: 10, NVal: nVal, NCert: 1, AdminIdx: 9,
-		Balance: 1000000000000, ValStake: stakes, Patch: shieldPatch(sc, 2*unit, t0), Votes: true,
+		Balance: 1000000000000, ValStake: stakes, Patch: shieldPatch(withSecondDenom(sc, seed), 2*unit, t0), Votes: true,
 		MinSelf: [][]int64{{1}, {stakes[0] - 5000000, 1, 1}, {1, stakes[1] - 20000000, 1}}[rng.Intn(3)]}
 	c := NewChain(cfg, out)
 	c.Rng = rng
